@@ -36,10 +36,14 @@ impl Property for C11 {
         sc.net.check_table_shape = true;
         let mut real = default_real(v6, 0, &mut rng);
         real.read_only = rng.chance(1, 2);
+        let mut keeper_from = usize::MAX;
         let own = real.id.unwrap();
         let node = real.addr;
         let big = rng.chance(1, 5); // 10..16 contacts: the "no re-bootstrap" regime
-        let n = if big { rng.range(10, 16) } else { rng.range(1, 8) } as usize;
+        // half of those: 4..6 contacts of a 14..18-contact table fall silent together, so that a
+        // whole group of dead questionable entries competes with live ones for the refresh pings
+        let starve = big && rng.chance(1, 2);
+        let n = if starve { rng.range(16, 20) } else if big { rng.range(10, 16) } else { rng.range(1, 8) } as usize;
         let hours = match tier {
             Tier::Quick => *rng.pick(&[1u64, 1, 2, 3]),
             Tier::Thorough => *rng.pick(&[1u64, 2, 4, 6]),
@@ -50,10 +54,28 @@ impl Property for C11 {
         let ids: Vec<[u8; 20]> = (0..n).map(|i| if big { id_with_lcp(&own, i / 2, &mut rng) } else { rng.id20() }).collect();
         let closest_naming = rng.chance(1, 2);
         let mut silent_at: BTreeMap<usize, u64> = BTreeMap::new();
+        let group_t = rng.range(20 * 60_000, end - 40 * 60_000);
+        let mut group: BTreeSet<usize> = BTreeSet::new();
+        if starve {
+            // the last 10..11 contacts keep themselves good by pinging the node every few minutes
+            // (so the node always has >= 10 good contacts and never re-bootstraps); of the others,
+            // 4..6 fall silent together and the remaining 2..4 just answer
+            real.read_only = false;
+            keeper_from = n - rng.range(10, 11) as usize;
+            let g = rng.range(4, 6).min(keeper_from as u64 - 2) as usize;
+            while group.len() < g {
+                group.insert(rng.range(1, keeper_from as u64 - 1) as usize);
+            }
+        }
         for i in 0..n {
             let mut s = StubCfg::honest(addrs[i], ids[i]);
             // the first contact always answers (the node needs somebody to bootstrap from)
-            if i > 0 && rng.chance(2, 5) {
+            if starve {
+                if group.contains(&i) {
+                    s.answer = Answer::SilentFrom(group_t);
+                    silent_at.insert(i, group_t);
+                }
+            } else if i > 0 && rng.chance(2, 5) {
                 let t = if rng.chance(1, 6) { 0 } else { rng.range(1_000, end - 40 * 60_000) };
                 s.answer = if t == 0 { Answer::Never } else { Answer::SilentFrom(t) };
                 silent_at.insert(i, t);
@@ -77,12 +99,25 @@ impl Property for C11 {
         }
         sc.reals.push(real);
         sc.at(0, Op::Start { node: 0 });
-        if rng.chance(1, 2) {
+        if starve {
+            let mut tid_no = 0u32;
+            for i in keeper_from..n {
+                let mut t = 30_000 + rng.range(0, 200_000);
+                while t < end {
+                    tid_no += 1;
+                    sc.at(t, Op::Raw { from: addrs[i], to: node, bytes: ping(&[b'K', (tid_no >> 8) as u8, tid_no as u8], &ids[i]) });
+                    t += rng.range(240_000, 400_000);
+                }
+            }
+            sc.params.insert("k_eff".into(), keeper_from as i64);
+        }
+        let searches = !starve && rng.chance(1, 2);
+        if searches {
             for _ in 0..rng.range(1, 6) {
                 sc.at(rng.range(5_000, end), Op::Search { node: 0, ih: rng.id20(), announce: rng.chance(1, 2) });
             }
         }
-        let period = *rng.pick(&[2_300u64, 3_700, 4_900]);
+        let period = if starve { 2_300 } else { *rng.pick(&[2_300u64, 3_700, 4_900]) };
         sc.at(500, Op::SampleEvery { node: 0, period_ms: period, count: (end / period) as u32, table: false });
         let probe = probe_addr(v6, 0, 20_000);
         let pid = rng.id20();
@@ -99,6 +134,8 @@ impl Property for C11 {
         sc.params.insert("hours".into(), hours as i64);
         sc.params.insert("period".into(), period as i64);
         sc.params.insert("big".into(), big as i64);
+        sc.params.insert("searches".into(), searches as i64);
+        sc.params.insert("starve".into(), starve as i64);
         sc
     }
 
@@ -108,7 +145,10 @@ impl Property for C11 {
         let n = sc.world.stubs.len() as u64;
         let rtt = 2 * sc.net.lat_max_ms;
         // statement: 30 s for 1..8 contacts; outside that range the mechanism gives 6 s per 4 contacts
-        let fresh_bound = if n <= 8 { 30_000 } else { 6_000 * ((n + 3) / 4) + 30_000 } + rtt;
+        // (a contact is skipped by the refresh while the node queried it less than 30 s ago, which only
+        // searches do to a good contact; without searches the mechanism's bound is one 6 s round per
+        // 4 contacts ahead of it, plus the sampling granularity)
+        let fresh_bound = if n <= 8 { 30_000 } else if sc.param("starve") != 0 { 6_000 * ((sc.param("k_eff") as u64 + 3) / 4) + period } else if sc.param("searches") == 0 { 6_000 * ((n + 3) / 4) + period } else { 6_000 * ((n + 3) / 4) + 30_000 } + rtt;
         let always: BTreeSet<SocketAddr> = sc.world.stubs.iter().filter(|s| s.answer == Answer::Always).map(|s| s.addr).collect();
         let silent: BTreeMap<SocketAddr, u64> = sc
             .world
@@ -220,6 +260,9 @@ impl Property for C11 {
         if sc.param("big") != 0 {
             v.hit("more_than_8_contacts_variant");
         }
+        if sc.param("starve") != 0 {
+            v.hit("group_of_contacts_falls_silent_together");
+        }
         if sc.reals[0].nodes.len() == 1 && n > 1 {
             v.hit("single_bootstrap_contact");
         }
@@ -231,12 +274,12 @@ impl Property for C11 {
         v
     }
     fn rule(&self) -> &'static str {
-        "one real node (serving or read-only), 1..8 stub contacts (1 in 5 runs: 10..16 contacts spread over prefix depths so that no bucket fills), loss-free, 1..6 virtual hours; each contact always answers or goes silent at a drawn time (or never answers); contacts name each other all the time or only by a drawn subset; single bootstrap contact or all listed; with and without interleaved searches; load_contacts sampled every 2.3..4.9 s, a find_node probe every 61 s. non-trivial = more than 100 samples and at least one always-answering contact admitted; distinct = distinct order digests"
+        "one real node (serving or read-only), 1..8 stub contacts (1 in 5 runs: 10..18 contacts spread over prefix depths so that no bucket fills; in half of those (16..20 contacts, serving node) 10..11 contacts keep themselves good by pinging the node, 4..6 of the others fall silent at the same instant, no searches run), loss-free, 1..6 virtual hours; each contact always answers or goes silent at a drawn time (or never answers); contacts name each other all the time or only by a drawn subset; single bootstrap contact or all listed; with and without interleaved searches; load_contacts sampled every 2.3..4.9 s, a find_node probe every 61 s. non-trivial = more than 100 samples and at least one always-answering contact admitted; distinct = distinct order digests"
     }
     fn assumptions(&self) -> Vec<&'static str> {
-        vec!["the 30 s freshness bound is the statement's for 1..8 contacts; for the 10..16-contact variant it is 6 s per 4 contacts + 30 s, which is what the statement's mechanism gives outside its range", "a responsive contact counts as lost when it is missing at two consecutive samples (a single miss can be the sub-RTT state in which two pings are in flight, which C10 defines as not reported)", "silent-contact deadline = max(last accepted answer + 20 min, last naming + 5 min) plus one RTT and one sampling period"]
+        vec!["the 30 s freshness bound is the statement's for 1..8 contacts; for the 10..18-contact variant it is 6 s per 4 contacts + 30 s (without searches: + one sampling period instead of the 30 s, since only a search makes the node query a good contact; in the group-silence variant only the contacts that do not ping the node can ever be questionable, and only those count), which is what the statement's mechanism gives outside its range", "a responsive contact counts as lost when it is missing at two consecutive samples (a single miss can be the sub-RTT state in which two pings are in flight, which C10 defines as not reported)", "silent-contact deadline = max(last accepted answer + 20 min, last naming + 5 min) plus one RTT and one sampling period"]
     }
     fn required_reach(&self) -> Vec<&'static str> {
-        vec!["turned_questionable_then_good_again", "silent_contact_purged", "more_than_8_contacts_variant", "single_bootstrap_contact", "three_hours_or_more"]
+        vec!["turned_questionable_then_good_again", "silent_contact_purged", "more_than_8_contacts_variant", "group_of_contacts_falls_silent_together", "single_bootstrap_contact", "three_hours_or_more"]
     }
 }
